@@ -17,13 +17,14 @@ LEVEL_TEXT = ('each point performs a real put -> history -> restore round trip; 
               'snapshot(after restore) incl. modes and mtimes, exactly that pair gone from the trash and nothing else changed')
 LEVEL_NOTE = 'trusted: CPython/shutil, tmpfs, shim mount rules; names limited to the alphabet (non-UTF-8 names are C16 territory)'
 RULE = ('names (24, incl. spaces, newlines, %, leading -, non-ASCII, 255 bytes) x kinds (6) x layout (home, .Trash/uid, .Trash-uid, '
-        '--trash-dir, .Trash-uid next to insecure .Trash/uid directories on two volumes, .Trash-uid being a symbolic link) x sort (date,path,none) x scope (cwd=dir, cwd=ancestor, cwd=/, explicit path) x history (6); quick tier '
+        '--trash-dir, .Trash-uid next to insecure .Trash/uid directories on two volumes, .Trash-uid being a symbolic link, home trash with a 1.4 KB original directory) x sort (date,path,none) x scope (cwd=dir, cwd=ancestor, cwd=/, explicit path) x history (6); quick tier '
         'restricts names to 12 (incl. trailing blank / tab / newline inside / %XX / leading dash / non-ASCII / 255 bytes), scopes to 2 and histories to 3; non-trivial = listing printed and index chosen; distinct = '
         'outcome class x all dimensions')
 NAMES = ['a.trashinfo.bak', 'a', 'a b', ' lead', 'trail ', 'a\nb', 'a\rb', 'tab\t', '%41', 'a%', '%', '-x', '--', 'é', '日本', '.hidden',
          'a.trashinfo', '*?[', '=', '#', '+', '&;', '"\'', '\\', 'L' * 255, '..notes', '...']
 QNAMES = ['a', 'trail ', 'a\nb', '%41', '-x', '日本', 'tab\t', 'L' * 255, 'a.trashinfo.bak', '.hidden', '..notes', '...']
-LAYOUTS = ['home', 'top-sticky', 'top-alt', 'trash-dir', 'top-alt-insecure', 'top-alt-link']
+LAYOUTS = ['home', 'top-sticky', 'top-alt', 'trash-dir', 'top-alt-insecure', 'top-alt-link', 'home-deep']
+DEEP = '/'.join(('%dé' % i) + 'é' * 99 for i in range(7))          # seven levels of 100 two-byte characters: the Path= line is longer than 4096 bytes
 SORTS = ['date', 'path', 'none']
 SCOPES = ['dir', 'ancestor', 'root', 'path-arg']
 HISTS = ['none', 'same-second-twin', 'older-same-name', 'unrelated-after', 'parent-removed', 'other-restored-first', 'empty-1-between']
@@ -51,6 +52,8 @@ def cases(tier):
 def run_case(c):
     vol = c['lay'].startswith('top-')
     B = '/mnt/v1/data/w' if vol else '/home/u/data/w'
+    if c['lay'] == 'home-deep':
+        B = '/home/u/data/' + DEEP + '/w'
     W = scen.base_world(mounts=['/', '/mnt/v0', '/mnt/v1'] if c['lay'] == 'top-alt-insecure' else ['/', '/mnt/v1'], cwd=B)
     if c['lay'] == 'top-alt-insecure':
         # both the entry's volume and a volume listed before it have a .Trash that is not sticky but already contains a $uid directory:
